@@ -11,6 +11,7 @@
 import SlicecVerif.Lemmas.Preproc
 import SlicecVerif.Lemmas.PreprocSpec
 import SlicecVerif.Lemmas.PreprocErrors
+import SlicecVerif.Lemmas.PreprocErrSim
 
 namespace Slicec.C06
 
@@ -359,6 +360,17 @@ theorem every_error_is_located_in_its_line_partial (f : List Char) :
       (TokEnd f sp.1 ∧ TokEnd f sp.2) :=
   fun sp h => ⟨reported_locIn f sp h, reported_tokEnd f sp h⟩
 
+/-- The FULL statement, proved (`Lemmas/PreprocErrSim.lean`): `i ≤ j` comes from the span invariant of the located lexer
+    model (`lexPreLE_span`: every token and every lexical error starts at an offset ≤ the offset it ends at) carried
+    through the mirror (`runLines_spans2`); the row clause comes from the line-by-line simulation `sim_file` (all tokens of
+    one directive line lie on the row of its `#`; ALL reported spans, the unrecoverable last one included, lie on one
+    row) and `cerrRun_rows` (every row the line machine collects is the row of a directive line). -/
+theorem every_error_is_located_in_its_line_full : every_error_is_located_in_its_line := by
+  intro f k sp h
+  obtain ⟨i, j, h1, h2, h3, h4⟩ := reported_spanIn f sp (List.mem_of_getElem? h)
+  have hr := reported_rows f k sp h
+  exact ⟨⟨i, j, h1, h2, h3, h4⟩, fun hrec => ⟨hr.1, hr.2 hrec⟩⟩
+
 /-- the rows the line-by-line machine and the recovery mirror report agree; the one licensed difference: when the run
     ends with a LEXICAL error the mirror may have lost the error of the directive line directly in front of it -/
 def _root_.Slicec.Pp.ErrRows.agree (spec mirror : ErrRows) : Prop :=
@@ -393,6 +405,14 @@ theorem each_bad_directive_reported_once_partial (f : List Char) (D : Syms) :
     cases hr : reportedErrors f with
     | nil => rfl
     | cons a b => exact absurd (h1.mp (by rw [hr]; simp)) h
+
+/-- The FULL statement, proved (`Lemmas/PreprocErrSim.lean`, `sim_file`): a simulation, line by line of the file, of the
+    error-collecting line machine `cerrRun` over the RAW lines by the recovery mirror `runLines ∘ tokLines` over the
+    located token stream of the lexer model, the tokens in front of a lexical error included (`lexES_dir` / `hash_line`:
+    the located lexer reads the file line by line, and every token of a directive line lies on the row of its `#`). -/
+theorem each_bad_directive_reported_once_full : each_bad_directive_reported_once := by
+  intro f
+  exact cerr_agree f
 
 /-! ### non-vacuity: the two inputs of the seeded changes C06-I / C06-J (evaluated by the kernel: `decide +kernel`) -/
 
@@ -510,3 +530,5 @@ end Slicec.C06
 #print axioms Slicec.C06.rejected_iff_reported
 #print axioms Slicec.C06.every_error_is_located_in_its_line_partial
 #print axioms Slicec.C06.each_bad_directive_reported_once_partial
+#print axioms Slicec.C06.every_error_is_located_in_its_line_full
+#print axioms Slicec.C06.each_bad_directive_reported_once_full
